@@ -7,12 +7,16 @@
 #             parameters need no entry
 #   ranges    {parameter or obj.attr: (lo, hi)}: hypotheses of the generated definition (needed where exactness of
 #             an operation depends on magnitudes, e.g. Decimal's 28 digits)
-#   fuel      Python int expression bounding the iterations of the function's `while` loop
+#   fuel      Python int expression bounding the iterations of the function's `while` loop (evaluated at the loop, over
+#             the variables live there); a list of expressions, in source order, when the function has several loops
+#   mutates   attributes (int lists) of the first parameter that the method changes by item assignment: the translation
+#             returns their final values as a tuple (value semantics) instead of the method's constant return value
 #   prefix_upto / from_var   sub-translation of the integer part of a function with a float part
 #   prop / theorem           the property the function is anchored in and its tie theorem
 _PTP = ("PTPTime", [("seconds", "int"), ("nanoseconds", "int")])
 _GOLAY_S = ("Golay", [("SyndromeTable", "ints")])
 _GOLAY_SC = ("Golay", [("SyndromeTable", "ints"), ("CorrectTable", "ints")])
+_GOLAY_ALL = ("Golay", [("SyndromeTable", "ints"), ("CorrectTable", "ints"), ("ErrorTable", "ints")])
 SRC = [
   dict(file="AcraNetwork/SimpleEthernet.py", lean="SimpleEthernet", func="ones_comp_add16",
        params={"num1": "int", "num2": "int"}, prop="C07", theorem="src_ones_comp_add16"),
@@ -69,4 +73,25 @@ SRC = [
        params={"self": _GOLAY_SC, "v1": "int", "v2": "int"}, prop="C11", theorem="src_Golay_decode2"),
   dict(file="AcraNetwork/Golay.py", lean="Golay", func="Golay._onesincode_old",
        params={"code": "int", "size": "int"}, prop="C11", theorem="src_Golay_onesincode_old"),
+  # C17 search algorithms.  `self` carries no state (class KMP has no attributes).  Fuels = those of the hand models:
+  # the fall-back loop `while j > 0 and …: j = ret[j - 1]` strictly decreases j (fuel j + 1); Horspool's outer loop
+  # advances k by skip[...] >= 1 for a non-empty pattern (fuel n + 1), its inner loop decreases j down to -1 (j + 2:
+  # j + 1 iterations and the final test)
+  dict(file="AcraNetwork/__init__.py", lean="Init", func="KMP.partial", name="KMP_partial",
+       params={"self": ("KMP", []), "pattern": "bytes"}, fuel="j + 1", prop="C17", theorem="src_KMP_partial"),
+  dict(file="AcraNetwork/__init__.py", lean="Init", func="KMP.search", name="KMP_search",
+       params={"self": ("KMP", []), "T": "bytes", "P": "bytes"}, fuel="j + 1", prop="C17", theorem="src_KMP_search"),
+  dict(file="AcraNetwork/SamDec008.py", lean="SamDec008", func="string_matching_boyer_moore_horspool",
+       params={"text": "bytes", "pattern": "bytes"}, fuel=["n + 1", "j + 2"], prop="C17", theorem="src_bmh_samdec"),
+  dict(file="AcraNetwork/MPEG/H264.py", lean="H264", func="string_matching_boyer_moore_horspool",
+       params={"text": "bytes", "pattern": "bytes"}, fuel=["n + 1", "j + 2"], prop="C17", theorem="src_bmh_h264"),
+  # the decode tables (C11 / C20).  `_onesincode` is the string idiom bin(code)[2:size+2].count('1'); the slice bound
+  # size + 2 must be >= 0, hence the declared range for `size` (the only call passes 24)
+  dict(file="AcraNetwork/Golay.py", lean="Golay", func="Golay._onesincode",
+       params={"code": "int", "size": "int"}, ranges={"size": (0, 64)}, prop="C11", theorem="src_Golay_onesincode"),
+  dict(file="AcraNetwork/Golay.py", lean="Golay", func="Golay._syndrome",
+       params={"self": _GOLAY_S, "v": "int"}, prop="C11", theorem="src_Golay_syndrome"),
+  dict(file="AcraNetwork/Golay.py", lean="Golay", func="Golay._initgolaydecode",
+       params={"self": _GOLAY_ALL}, mutates=["SyndromeTable", "CorrectTable", "ErrorTable"],
+       prop="C11", theorem="src_Golay_initgolaydecode"),
 ]
